@@ -58,10 +58,13 @@ ChopDecodeA ==
     /\ st.phase = "enc" /\ st.text # <<>>
     /\ st' = [st EXCEPT !.phase = "chop", !.text = Front(st.text), !.back = Decode(st.eng, Front(st.text))]
 
+\* characters outside this engine's alphabet: the common ones plus digits of the *other* alphabets
+\* ('+', '-', '.', '_'); ab64 input documents '+' as an alias of '.'
+BadCharsFor(e) == {c \in BadChars \cup {43, 45, 46, 95} : ~InAbc(Engines[e].abc, c) /\ ~(e = "ab64" /\ c = 43)}
 \* one character replaced by a character outside the alphabet
 BadCharA ==
     /\ st.phase = "enc" /\ st.text # <<>>
-    /\ \E i \in 1..Len(st.text), c \in BadChars :
+    /\ \E i \in 1..Len(st.text), c \in BadCharsFor(st.eng) :
           LET t2 == [st.text EXCEPT ![i] = c] IN
           st' = [st EXCEPT !.phase = "bad", !.text = t2, !.back = Decode(st.eng, t2)]
 
